@@ -75,8 +75,12 @@ def build(cls, P, decls, order, names="none"):
             xs, _, fs = f.stationary_point(return_gradient_and_function_value=True)
             if names == "all" and cls != "SmoothStronglyConvexQuadraticFunction":
                 xs.set_name("ps")
+            if names == "mixed" and cls != "SmoothStronglyConvexQuadraticFunction":
+                xs.set_name("q")                   # the same name as the base point P0: labels are not identifiers
         elif tok == "X":
             xf, _, _ = f.fixed_point()
+            if names == "mixed":
+                xf.set_name("q")
             pep.set_initial_condition(xf ** 2 <= 1)
         elif tok == "T1":
             y = f.gradient(base[1])
